@@ -190,7 +190,43 @@ def check_gate(ctx):
     C01.check_gate(ctx, "C07.gate")
 
 
+def check_retirement_walk(ctx):
+    """an in-flight writer learns from Record::retirement_timestamp() whether the generation it read was later removed by a
+    delete; the delete stamps the *tail* generation, any number of accepted generations later, so the helper has to follow the
+    successor links to the end of the chain and take the maximum over every generation on the way"""
+    inst = "C07.retirement-walk"
+    b = ctx.fn("Record::retirement_timestamp", inst)
+    if b is None:
+        return
+    def on_field(name):
+        return lambda bb, n: R.recv_expr(bb, n).has_field("Record", name)
+    gets = ctx.sites(b, R.call("OnceLock::get").filter(on_field("successor"), "successor.get"), inst, floor=1)
+    loads = ctx.sites(b, R.call("Atomic::load", "AtomicU64::load").filter(on_field("retired_at"), "retired_at.load"), inst, floor=2)
+    # the walk is a loop: some successor.get() lies on a cycle together with a retired_at load
+    on_cycle = []
+    for g in gets:
+        r, _ = A.reach(b, A.succs(b, g), sensitive=False)
+        if g in r and any(l in r for l in loads):
+            on_cycle.append(g)
+    ctx.check(bool(on_cycle), inst, "PIN", b.path, "the successor chain is walked in a loop (every generation's stamp is visited), not to a fixed depth", None)
+    # the function returns only at the end of the chain (successor = None)
+    rets = [n.id for n in b.nodes if n.kind == "assign" and not n.ev["dst"]["p"] and n.ev["dst"]["l"] == 0]
+    ctx.check(bool(rets), inst, "anchor", b.path, "return value assignments found", None)
+    R.guard(ctx, inst, b, rets, R.guard_edges_for_call(b, gets, "None"), "the answer is produced only once a generation without successor was reached")
+    # accumulation by maximum
+    mx = R.call("Ord::max", "cmp::max", "u64::max")(b)
+    ctx.check(bool(mx) and any(any(m in A.reach(b, A.succs(b, g), sensitive=False)[0] for m in mx) for g in on_cycle or gets), inst, "PIN", b.path,
+              "stamps are combined by maximum inside the walk", None)
+    # the callers compare it with their own timestamp (>=) — pinned in C07.gate / C01.gate; here: who calls it
+    R.callers_within(ctx, inst, "Record::retirement_timestamp",
+                     ["FeoxStore::update_record_with_ttl", "FeoxStore::update_record_with_ttl_bytes", "FeoxStore::json_patch_with_timestamp",
+                      "FeoxStore::atomic_increment_with_timestamp_and_ttl", "FeoxStore::replace_record_if_current", "FeoxStore::compare_and_swap_with_timestamp",
+                      "FeoxStore::insert_with_timestamp_and_ttl_internal", "FeoxStore::insert_bytes_with_expiry", "FeoxStore::delete_with_timestamp",
+                      "FeoxStore::update_ttl", "FeoxStore::insert_if_absent"], floor=3)
+
+
 def check(ctx):
+    check_retirement_walk(ctx)
     check_gate(ctx)
     check_identity(ctx)
     check_stale_read(ctx)
